@@ -1,6 +1,7 @@
 package main
 
 import (
+	"os"
 	"fmt"
 	"go/token"
 	"go/types"
@@ -163,6 +164,56 @@ func (r *funcRun) execBlock(st *State, b *ssa.BasicBlock, pred *ssa.BasicBlock) 
 			}
 			return nil
 		}
+		if ls.Cut {
+			// cut point: the invariants are checked on every arriving path (with the local names bound as the
+			// dominating definitions bind them); the body and the rest of the function are explored once, from
+			// a state that knows the preconditions and the invariants only.
+			as := st.clone()
+			r.rebindDominating(as, b)
+			bind(as, phiVals)
+			r.loopEntrySetup(as, ls, false)
+			for k, inv := range ls.Invariants {
+				r.emitGoal(as, "inv-entry", fmt.Sprintf("=loop%d.%s", ord, clauseID(inv, k)), inv.Props, inv.Expr, nil, r.old, r.baseVars(as), inv.Src)
+				as.assume(r.evalBool(as, inv.Expr, r.old, nil, inv.Src))
+			}
+			if r.cutDone[b.Index] {
+				return nil
+			}
+			r.cutDone[b.Index] = true
+			cs := r.cutState(st, b)
+			*st = *cs
+			// an arbitrary loop-entry state (what snapshots and lets refer to) ...
+			hv0 := make([]Value, len(phis))
+			for i, p := range phis {
+				hv0[i] = r.v.freshValue(st, "phi0_"+p.Comment+"_"+p.Name(), p.Type())
+			}
+			bind(st, hv0)
+			r.loopEntrySetup(st, ls, true)
+			// ... and an arbitrary current state related to it by the invariants only
+			r.cutHavoc(st, st.alloc)
+			hv := make([]Value, len(phis))
+			for i, p := range phis {
+				hv[i] = r.v.freshValue(st, "phi_"+p.Comment+"_"+p.Name(), p.Type())
+			}
+			bind(st, hv)
+			for _, g := range ls.Ghosts {
+				st.names[g.Name] = r.v.freshValue(st, "lg_"+g.Name, st.ntypes[g.Name])
+			}
+			for _, inv := range ls.Invariants {
+				st.assume(r.evalBool(st, inv.Expr, r.old, nil, inv.Src))
+			}
+			for k, d := range ls.Decreases {
+				m := r.evalInt(st, d.Expr, r.old, d.Src)
+				c := st.freshConst("measure", SInt)
+				st.assume(Ident(c, m))
+				st.names[fmt.Sprintf("$measure%d.%d", ord, k)] = c
+			}
+			if len(ls.Decreases) == 0 {
+				r.note(fmt.Sprintf("loop %d has no decreases clause: termination not proved", ord))
+			}
+			st.loops[b.Index] = true
+			goto body
+		}
 		// first arrival
 		bind(st, phiVals)
 		for _, sn := range ls.Snaps {
@@ -189,9 +240,20 @@ func (r *funcRun) execBlock(st *State, b *ssa.BasicBlock, pred *ssa.BasicBlock) 
 			st.assume(r.evalBool(st, inv.Expr, r.old, nil, inv.Src))
 		}
 		// havoc (allocation counter first: the new versions may hold references allocated in the loop)
+		entryAlloc := st.alloc
 		st.bumpAlloc()
 		localOnly := r.loopLocalOnly(b)
-		for _, c := range r.loopWrites(b) {
+		lw := r.loopWrites(b)
+		for _, c := range lw {
+			if c == everything {
+				// a call without contract in the loop: nothing is known at the loop head
+				st.havocAll()
+				r.havocGhostVars(st)
+				lw = nil
+				break
+			}
+		}
+		for _, c := range lw {
 			if localOnly[c] {
 				// every write to this component in the loop goes through a local of this function
 				// (allocated after entry): what existed at entry keeps its value
@@ -204,6 +266,27 @@ func (r *funcRun) execBlock(st *State, b *ssa.BasicBlock, pred *ssa.BasicBlock) 
 				}
 			}
 			st.havocComp(c)
+		}
+		// components the callees of the loop write only at references they allocate: what existed at
+		// loop entry keeps its value, newer references are unknown
+		{
+			var lb []*ssa.BasicBlock
+			for _, x := range loopBlocks(b) {
+				lb = append(lb, x)
+			}
+			full, _, freshOnly := r.blockSetWrites(lb)
+			if !full[everything] && !(r.c.Loops[ord] != nil && r.c.Loops[ord].HasMod) {
+				names := make([]string, 0, len(freshOnly))
+				for c := range freshOnly {
+					names = append(names, c)
+				}
+				sort.Strings(names)
+				for _, c := range names {
+					if !localOnly[c] {
+						r.havocFresh(st, c, entryAlloc)
+					}
+				}
+			}
 		}
 		hv := make([]Value, len(phis))
 		for i, p := range phis {
@@ -237,6 +320,7 @@ func (r *funcRun) execBlock(st *State, b *ssa.BasicBlock, pred *ssa.BasicBlock) 
 			}
 		}
 	}
+body:
 	for _, in := range b.Instrs {
 		if _, ok := in.(*ssa.Phi); ok {
 			continue
@@ -371,6 +455,92 @@ func (r *funcRun) loopLocalOnly(h *ssa.BasicBlock) map[string]bool {
 
 const everything = "*"
 
+// allocsOf: components a callee may write at references it allocates itself (its "allocates" clause).
+func (r *funcRun) allocsOf(in ssa.Instruction) []string {
+	var cc *ssa.CallCommon
+	switch x := in.(type) {
+	case *ssa.Call:
+		cc = &x.Call
+	case *ssa.Defer:
+		cc = &x.Call
+	default:
+		return nil
+	}
+	if _, ok := cc.Value.(*ssa.Builtin); ok {
+		return nil
+	}
+	c := r.v.contractForCall(cc)
+	if c == nil {
+		return nil
+	}
+	return r.v.expandMods(c.Allocates)
+}
+
+// havocFresh gives component c a new version that agrees with the current one at every reference
+// allocated up to bound (the component was written at newer references only).
+func (r *funcRun) havocFresh(st *State, c string, bound Term) {
+	sig, ok := st.compSig[c]
+	if !ok && st.sigOf != nil {
+		if sg, found := st.sigOf(c); found {
+			st.compSig[c] = sg
+			sig, ok = sg, true
+		}
+	}
+	if !ok || !strings.HasPrefix(sig, "(Array Int ") {
+		st.havocComp(c)
+		return
+	}
+	before := st.comp(c, sig)
+	st.havocComp(c)
+	after := st.comp(c, sig)
+	st.assume(r.frameFormula(sig, after, before, bound, nil, true))
+}
+
+// blockSetWrites classifies the components written by the instructions of the blocks: written anywhere
+// (full), only through local cells of this function (local), only at references callees allocate (fresh).
+func (r *funcRun) blockSetWrites(blocks []*ssa.BasicBlock) (full map[string]bool, local map[string]bool, fresh map[string]bool) {
+	full, local, fresh = map[string]bool{}, map[string]bool{}, map[string]bool{}
+	var rooted func(a ssa.Value) bool
+	rooted = func(a ssa.Value) bool {
+		switch x := a.(type) {
+		case *ssa.Alloc:
+			return true
+		case *ssa.FieldAddr:
+			return rooted(x.X)
+		case *ssa.IndexAddr:
+			// element of a local array (e.g. the argument array of a variadic call)
+			if _, isPtr := x.X.Type().Underlying().(*types.Pointer); isPtr {
+				return rooted(x.X)
+			}
+		}
+		return false
+	}
+	for _, b := range blocks {
+		for _, in := range b.Instrs {
+			if st, ok := in.(*ssa.Store); ok && rooted(st.Addr) {
+				for _, c := range r.addrComps(st.Addr) {
+					local[c] = true
+				}
+				continue
+			}
+			for _, c := range r.writesOf(in) {
+				if c == everything && os.Getenv("SODVC_DEBUG") != "" {
+					fmt.Fprintf(os.Stderr, "everything: %s in %s\n", in.String(), r.fn.Name())
+				}
+				full[c] = true
+			}
+			for _, c := range r.allocsOf(in) {
+				fresh[c] = true
+			}
+		}
+	}
+	for c := range full {
+		delete(local, c)
+		delete(fresh, c)
+	}
+	return
+}
+
 // staticLocComps: leaf components a store through the address may write.
 func (r *funcRun) addrComps(a ssa.Value) []string {
 	pt, ok := a.Type().Underlying().(*types.Pointer)
@@ -472,6 +642,24 @@ func (r *funcRun) callWrites(cc *ssa.CallCommon) []string {
 			return []string{mi.dom, "MapCard[" + strings.TrimPrefix(mi.dom, "MapDom[")}
 		}
 		return nil
+	}
+	if fn := cc.StaticCallee(); fn != nil {
+		switch full := fn.String(); {
+		case full == "fmt.Errorf":
+			return nil // modelled: a fresh error value, no write
+		case full == "fmt.Sprintf":
+			if _, isConst := cc.Args[0].(*ssa.Const); isConst {
+				return nil
+			}
+		case strings.HasPrefix(full, "(*sync.RWMutex).") || strings.HasPrefix(full, "(*sync.Mutex)."):
+			// lock operations change the lock typestate ghosts only
+			var gs []string
+			for g := range r.v.spec.GhostVars {
+				gs = append(gs, "Ghost."+g)
+			}
+			sort.Strings(gs)
+			return gs
+		}
 	}
 	c := r.v.contractForCall(cc)
 	if c == nil || !c.HasMod {
@@ -1039,4 +1227,185 @@ func (r *funcRun) nextOp(st *State, x *ssa.Next) {
 	st.names["$key"] = kk
 	st.ntypes["$key"] = mt.Key()
 	st.regs[x.Name()] = &TupleVal{E: []Value{ok, kk, val}}
+}
+
+// loopEntrySetup takes the snapshots, evaluates the lets and initialises the ghosts of a loop at its
+// entry. arbitrary: the entry state is unknown (cut point): ghosts start unconstrained.
+func (r *funcRun) loopEntrySetup(st *State, ls *LoopSpec, arbitrary bool) {
+	for _, sn := range ls.Snaps {
+		st.snaps[sn] = st.snap()
+	}
+	for _, l := range ls.Lets {
+		c := &evalCtx{r: r, st: st, old: r.old, vars: r.baseVars(st), src: r.c.Src}
+		tv := c.evalStr(l.Expr)
+		st.names[l.Name] = tv.V
+		st.ntypes[l.Name] = tv.T
+	}
+	for _, g := range ls.Ghosts {
+		c := &evalCtx{r: r, st: st, old: r.old, vars: r.baseVars(st), src: g.Src}
+		t := c.parseType(g.Type)
+		if g.Init != "" && !arbitrary {
+			tv := c.evalStr(g.Init)
+			st.names[g.Name], st.ntypes[g.Name] = tv.V, t
+		} else {
+			st.names[g.Name], st.ntypes[g.Name] = r.v.freshValue(st, "lg_"+g.Name, t), t
+		}
+	}
+}
+
+// dominators of b, from the entry block down to (excluding) b.
+func domChain(b *ssa.BasicBlock) []*ssa.BasicBlock {
+	var ch []*ssa.BasicBlock
+	for d := b.Idom(); d != nil; d = d.Idom() {
+		ch = append([]*ssa.BasicBlock{d}, ch...)
+	}
+	return ch
+}
+
+// localNames: every source-level name the function's instructions bind.
+func (r *funcRun) localNames() map[string]bool {
+	ns := map[string]bool{}
+	for _, blk := range r.fn.Blocks {
+		for _, in := range blk.Instrs {
+			switch x := in.(type) {
+			case *ssa.DebugRef:
+				if obj := x.Object(); obj != nil {
+					ns[obj.Name()] = true
+					ns["&"+obj.Name()] = true
+				}
+			case *ssa.Phi:
+				if x.Comment != "" {
+					ns[x.Comment] = true
+				}
+			case *ssa.Alloc:
+				if x.Comment != "" {
+					ns["&"+x.Comment] = true
+				}
+			}
+		}
+	}
+	return ns
+}
+
+// rebindDominating rebinds the local names of st as the blocks dominating b bind them (the binding
+// the cut state uses), with the values the registers have on this path.
+func (r *funcRun) rebindDominating(st *State, b *ssa.BasicBlock) {
+	for n := range r.localNames() {
+		if _, isParam := r.params[n]; isParam {
+			continue
+		}
+		delete(st.names, n)
+	}
+	for _, d := range domChain(b) {
+		for _, in := range d.Instrs {
+			switch x := in.(type) {
+			case *ssa.DebugRef:
+				r.step(st, x, d)
+			case *ssa.Phi:
+				if x.Comment != "" {
+					if v, ok := st.regs[x.Name()]; ok {
+						st.names[x.Comment] = v
+						st.ntypes[x.Comment] = x.Type()
+					}
+				}
+			case *ssa.Alloc:
+				if x.Comment != "" && !strings.ContainsAny(x.Comment, " ()") {
+					if v, ok := st.regs[x.Name()]; ok {
+						st.names["&"+x.Comment] = v
+						st.ntypes["&"+x.Comment] = x.Type()
+					}
+				}
+			}
+		}
+	}
+}
+
+// cutState builds the state a cut-point loop is explored from: the preconditions, an unknown heap, and
+// unknown values for every register defined in a block dominating the header.
+func (r *funcRun) cutState(arriving *State, b *ssa.BasicBlock) *State {
+	cs := r.entrySt.clone()
+	cs.defers = append([]deferred(nil), arriving.defers...)
+	cs.trace = append([]int(nil), arriving.trace...)
+	cs.depth = arriving.depth
+	for k, v := range arriving.loops {
+		cs.loops[k] = v
+	}
+	r.cutHavoc(cs, r.old.alloc)
+	var cells []Term
+	for _, d := range domChain(b) {
+		for _, in := range d.Instrs {
+			if dr, ok := in.(*ssa.DebugRef); ok {
+				r.step(cs, dr, d)
+				continue
+			}
+			val, ok := in.(ssa.Value)
+			if !ok {
+				continue
+			}
+			v := r.v.freshValue(cs, "cut_"+val.Name(), val.Type())
+			cs.regs[val.Name()] = v
+			switch x := in.(type) {
+			case *ssa.Phi:
+				if x.Comment != "" {
+					cs.names[x.Comment] = v
+					cs.ntypes[x.Comment] = x.Type()
+				}
+			case *ssa.Alloc:
+				// a local cell: live, distinct from the other local cells
+				t := v.(Term)
+				cs.assume(And(Lt(IntLit(0), t), Le(t, cs.alloc)))
+				for _, q := range cells {
+					cs.assume(Not(Eq(t, q)))
+				}
+				cells = append(cells, t)
+				if x.Comment != "" && !strings.ContainsAny(x.Comment, " ()") {
+					cs.names["&"+x.Comment] = v
+					cs.ntypes["&"+x.Comment] = x.Type()
+				}
+			}
+		}
+	}
+	return cs
+}
+
+// cutHavoc forgets what the function may have changed: components it writes get a new version;
+// those written only through its own local cells or only at references its callees allocate keep
+// their values at old references (local cells: references of the function's entry; callee
+// allocations: references up to freshBound).
+func (r *funcRun) cutHavoc(st *State, freshBound Term) {
+	full, local, freshOnly := r.blockSetWrites(r.fn.Blocks)
+	if full[everything] {
+		st.havocEverything()
+		r.havocGhostVars(st)
+		return
+	}
+	st.bumpAlloc()
+	keys := func(m map[string]bool) []string {
+		out := make([]string, 0, len(m))
+		for c := range m {
+			out = append(out, c)
+		}
+		sort.Strings(out)
+		return out
+	}
+	for _, c := range keys(full) {
+		st.havocComp(c)
+	}
+	for _, c := range keys(local) {
+		r.havocFresh(st, c, r.old.alloc)
+	}
+	for _, c := range keys(freshOnly) {
+		if !local[c] {
+			r.havocFresh(st, c, freshBound)
+		}
+	}
+}
+
+func (r *funcRun) havocGhostVars(st *State) {
+	var gs []string
+	for g := range r.v.spec.GhostVars {
+		gs = append(gs, g)
+	}
+	sort.Strings(gs)
+	st.havocGhosts(gs)
 }
